@@ -147,11 +147,14 @@ def body(prop, args, seed, t0):
             broken.append({"file": "leanchecker", "line": 0, "decl": "?", "message": out[-300:]})
     obligations = len(names)
     broken_decls = {b["decl"].split(".")[-1] for b in broken}
-    discharged = 0 if (not build_ok and any(b["decl"] == "?" for b in broken)) else sum(
-        1 for n in names if n.split(".")[-1] not in broken_decls) if build_ok or broken else 0
-    if not build_ok:
-        # a theorem that imports a broken one is not discharged either; be conservative
-        discharged = min(discharged, obligations - 1) if obligations else 0
+    if build_ok:
+        discharged = sum(1 for n in names if n.split(".")[-1] not in broken_decls)
+        if broken and discharged == obligations:
+            discharged = obligations - 1
+    else:
+        # a failed build discharges nothing that depends on the failing file; count only theorems of
+        # Props/<prop> that are not named in an error, and never all of them
+        discharged = min(sum(1 for n in names if n.split(".")[-1] not in broken_decls), max(obligations - 1, 0))
 
     driver = common.Driver(prop)
 
